@@ -15,6 +15,21 @@ CHECKS = {
         ref="7 C02"),
 }
 
+CHECKS["C03"] = dict(
+    technique="TLA+ system model (SmartCalc.tla, Env.tla) model-checked by TLC; TLC-enumerated programs replayed into the code; random session traces validated by TLC (Trace.tla)",
+    text="TLC model-checks LatestBinding / FailKeepsEnv / LoopIsRunLines on the system model, enumerates every straight-line program of <= 4 lines over a "
+         "13-line alphabet (every value kind, copies, self-reference, longest-match names, failing lines) with expected slots, and the harness replays "
+         "each as one text and line by line through a re-used session; random programs of 20..50 lines are executed and their traces validated by TLC.",
+    note="trusted: renderer, projection, TLC; program length and alphabet are bounded; names are only compared after a successful binding",
+    ref="7 C03")
+CHECKS["C04"] = dict(
+    technique="TLA+ system model (SmartCalc.tla) model-checked by TLC; TLC-enumerated call histories replayed into the code; random histories validated by TLC (Trace.tla)",
+    text="TLC checks framing (evaluation never changes calc), privacy of execute, session isolation and history independence on every reachable state and step "
+         "of the system model, enumerates all histories of 4 calls over execute / set_text / execute_session on two sessions and five texts with the expected "
+         "observation of every call, and the harness replays them on long-lived calculators; random histories of 200 calls are validated by TLC.",
+    note="trusted: renderer, projection, TLC; history depth, number of sessions and texts are bounded",
+    ref="7 C04")
+
 NOT_YET = {
 }
 
